@@ -204,7 +204,7 @@ def run_docenc(ctx):
     for t in texts:
         for nul in (0, 1):
             data = t if not nul else t.replace(b"\n", b"\0")
-            ind = rng.choice(["-", "-", "1", "2", "1,2", "2,3", "1,3", "2,1", "2,2", "1,2,2,3", "3,1,2"])
+            ind = rng.choice(["-", "-", "1", "2", "1,2", "2,3", "1,3", "2,1", "2,2", "1,2,2,3", "3,1,2", "1,1,2", "2,2,3", "1,2,2,3,4"])
             args = (["-0"] if nul else []) + ([] if ind == "-" else ["1-2", "2-3"] if ind == "1,2,2,3" else [i for i in ind.split(",")])
             if ind == "2,3" and rng.random() < 0.5:
                 args = (["-0"] if nul else []) + ["2-3"]
@@ -257,8 +257,10 @@ def run_docenc(ctx):
         b64 = b"".join(base64.b64encode(d) + b"\n" for d in ds)
         nul = rng.randrange(2)
         # index arguments as a user may type them: any order, repeated, overlapping ranges (M-N expands to M..N)
-        ind = rng.choice(["-", "1", "2", "3", "1,2", "2,4", "1,3,4", "5", "2,1", "3,1", "2,2", "1,2,3,2,3,4", "2,3,3", "4,2,3"])
-        args = ["-d", "-q"] + (["-0"] if nul else []) + ([] if ind == "-" else ["1-3", "2-4"] if ind == "1,2,3,2,3,4" else ["2-3", "3"] if ind == "2,3,3" else ind.split(","))
+        ind = rng.choice(["-", "1", "2", "3", "1,2", "2,4", "1,3,4", "5", "2,1", "3,1", "2,2", "1,2,3,2,3,4", "2,3,3", "4,2,3",
+                          "1,2,3,3,4,5", "2,2,3", "1,1,2,4", "1,2,2,4,5", "3,3,4"])      # ascending, with a repeat that is followed by more
+        args = ["-d", "-q"] + (["-0"] if nul else []) + ([] if ind == "-" else ["1-3", "2-4"] if ind == "1,2,3,2,3,4" else ["2-3", "3"] if ind == "2,3,3" else
+                                                        ["1-3", "3-5"] if ind == "1,2,3,3,4,5" else ["3", "3-4"] if ind == "3,3,4" else ind.split(","))
         dops.append(f"docenc.dec {nul} {ind} {hx(b64)}")
         druns.append((args, b64, ds, ind, nul))
     model = pvlib.run_lines(pvlib.PVDRIVER, dops)
